@@ -167,6 +167,7 @@ class World(WsWorld):
                 op["nframes"] = 1 + ch.choose(3, "nframes")
                 op["chunk"] = ch.pick((1, 7, 64, 1000, 70000), "chunk")
                 op["overrun"] = ch.flag("overrun", 0.3)
+                op["rejected_call"] = ch.flag("rejected-api-call-mid-frame", 0.25)
                 if L // op["chunk"] > 300:
                     op["len"] = L = 1 + ch.choose(300, "len-stream")
             elif api == "lowlevel":
@@ -256,6 +257,17 @@ class World(WsWorld):
                         else:
                             data = payload[pos:min(end, b)]
                         rest = p.sendMessageFrameData(data, sync=op["sync"])
+                        if op.get("rejected_call") and pos + len(data) < b:
+                            # another producer sharing the connection starts a frame of its own while this one is only
+                            # partly written: the library refuses that - and the refused call must leave no trace
+                            op["rejected_call"] = False
+                            # (endMessage() is not in the list: the library deliberately does not check its state)
+                            for bad in (lambda: p.beginMessageFrame(flen + 7), lambda: p.beginMessage(True)):
+                                try:
+                                    bad()
+                                    self.run.violate("C01.send-raises", "out-of-state-call-accepted", "inside a streamed frame")
+                                except Exception:  # noqa
+                                    self.run.probe("out-of-state-call-rejected")
                         if rest is not None and rest < 0:
                             # over-run: -rest octets were not consumed
                             pos = pos + len(data) + rest
